@@ -686,6 +686,15 @@ func (g *gen) yieldStmt(depth int) []Node {
 		leaveC := g.enter("content")
 		y.Content = append([]Node{&Text{S: "<c:"}}, append(g.list(depth+1), &Text{S: ">"})...)
 		leaveC()
+		if g.r.Intn(8) == 0 {
+			// an empty content clause is still the content: a block rendering 'yield content' renders nothing, not
+			// the content of some enclosing yield
+			y.Content = nil
+			g.feat["yield-with-empty-content"] = true
+			g.inContent--
+			g.ctx = saveCtx
+			return []Node{y}
+		}
 		g.inContent--
 		g.ctx = saveCtx
 		if g.cfg.SharedNames && g.r.Intn(2) == 0 {
@@ -904,6 +913,10 @@ func (g *gen) blockDef(b blockInfo, depth int) *BlockDef {
 		g.inContent++
 		g.ctx = -2
 		d.Content = []Node{&Text{S: "<def:" + g.tok("D") + ">"}}
+		if g.r.Intn(6) == 0 {
+			d.Content = nil // empty default content
+			g.feat["empty-default-content"] = true
+		}
 		g.inContent--
 	}
 	g.inBlock--
